@@ -11,12 +11,9 @@ namespace Rbgp.Monitor
 def opOk (n : Nat) : Op → Bool
   | .ins k _ _ _ => decide (k < n)
   | .rem k _ _ => decide (k < n)
-  -- the purge class is outside the proved fragment (finding S28b)
-  | .gdown | .purge | .dropfam | .llgr | .lpurge => false
   | _ => true
 
-/-- the case only names shards that exist (the parser enforces it) and uses no operation of the
-    purge class -/
+/-- the case only names shards that exist (the parser enforces it) -/
 def caseOk (c : Case) : Bool := c.threads.all fun t => t.2.all (opOk c.n)
 
 def dAfter (ks : List Nat) (d : Option (List Nat)) : Option (List Nat) :=
@@ -50,6 +47,38 @@ theorem wfp_dropLoop (n me : Nat) (tail : List Instr) : ∀ (ks : List Nat) (f :
     simp only [List.flatMap_cons, List.cons_append, List.nil_append, wfp]
     simp [hk0]
     exact ih false _ (fun k' hk' => hk k' (by simp [hk'])) (by simpa [dAfter] using h)
+
+theorem wfp_staleLoop (n me : Nat) (tail : List Instr) : ∀ (ks : List Nat) (f : Bool) (d : Option (List Nat)),
+    (∀ k ∈ ks, k < n) → (∀ f', wfp n me tail none f' (dAfter ks d) none = true) →
+    wfp n me (ks.flatMap (fun k => lockSec k [.commitStale k]) ++ tail) none f d none = true := by
+  simp only [lockSec]
+  intro ks
+  induction ks with
+  | nil => intro f d _ h; simpa [dAfter] using h f
+  | cons k r ih =>
+    intro f d hk h
+    have hk0 : k < n := hk k (by simp)
+    simp only [List.flatMap_cons, List.cons_append, List.nil_append, wfp]
+    simp [hk0]
+    exact ih false _ (fun k' hk' => hk k' (by simp [hk'])) (by simpa [dAfter] using h)
+
+/-- the loops of the bulk purges: load under the lock, one body step per shard -/
+theorem wfp_purgeLoop (n me : Nat) (body : Nat → Instr) (tail : List Instr)
+    (hb : ∀ k r, wfp n me (body k :: r) (some k) true none none = wfp n me r (some k) true none none) :
+    ∀ (ks : List Nat) (f : Bool),
+    (∀ k ∈ ks, k < n) → (∀ f', wfp n me tail none f' none none = true) →
+    wfp n me (ks.flatMap (fun k => lockSec k [.loadSubs, .yld .loaded, body k]) ++ tail) none f none none = true := by
+  simp only [lockSec]
+  intro ks
+  induction ks with
+  | nil => intro f _ h; simpa using h f
+  | cons k r ih =>
+    intro f hk h
+    have hk0 : k < n := hk k (by simp)
+    simp only [List.flatMap_cons, List.cons_append, List.nil_append, wfp]
+    simp only [Option.isNone_none, Bool.true_and, hk0, decide_true, Option.isSome_some, hb]
+    simp only [wfp, decide_true, Bool.true_and]
+    exact ih false (fun k' hk' => hk k' (by simp [hk'])) h
 
 theorem wfp_srLoop (n me p : Nat) (tail : List Instr) : ∀ (ks : List Nat) (f : Bool),
     (∀ k ∈ ks, k < n) → (∀ f', wfp n me tail none f' none none = true) →
@@ -128,11 +157,33 @@ theorem compile_wf_op (n me : Nat) (op : Op) (hop : opOk n op = true) (rest : Li
     apply wfp_srLoop n me p _ (List.range n) f hr
     intro f'; simpa [wfp] using hrest f'
   | pol p => simp only [compile, List.cons_append, List.nil_append, wfp]; simpa using hrest f
-  | gdown => simp [opOk] at hop
-  | purge => simp [opOk] at hop
-  | dropfam => simp [opOk] at hop
-  | llgr => simp [opOk] at hop
-  | lpurge => simp [opOk] at hop
+  | gdown =>
+    simp only [compile, bulk, perShard, List.cons_append, List.nil_append, List.append_assoc, wfp]
+    simp
+    apply wfp_staleLoop n me _ (List.range n) false none hr
+    intro f'
+    simp only [wfp]
+    simp
+    refine ⟨?_, hrest f'⟩
+    simp [cover]
+    intro k hk
+    exact dAfter_mem (List.range n) none k (Or.inl (List.mem_range.mpr hk))
+  | purge =>
+    simp only [compile, purgeLoop, perShard, List.cons_append, List.nil_append, List.append_assoc, wfp]
+    apply wfp_purgeLoop n me _ _ (by intro k r; simp [wfp]) (List.range n) f hr
+    intro f'; simpa [wfp] using hrest f'
+  | dropfam =>
+    simp only [compile, purgeLoop, perShard, List.cons_append, List.nil_append, List.append_assoc, wfp]
+    apply wfp_purgeLoop n me _ _ (by intro k r; simp [wfp]) (List.range n) f hr
+    intro f'; simpa [wfp] using hrest f'
+  | llgr =>
+    simp only [compile, purgeLoop, perShard, List.cons_append, List.nil_append, List.append_assoc, wfp]
+    apply wfp_purgeLoop n me _ _ (by intro k r; simp [wfp]) (List.range n) f hr
+    intro f'; simpa [wfp] using hrest f'
+  | lpurge =>
+    simp only [compile, purgeLoop, perShard, List.cons_append, List.nil_append, List.append_assoc, wfp]
+    apply wfp_purgeLoop n me _ _ (by intro k r; simp [wfp]) (List.range n) f hr
+    intro f'; simpa [wfp] using hrest f'
   | sub want =>
     cases want with
     | false => simp [compile, wfp]; exact hrest f
@@ -246,9 +297,10 @@ theorem quiescent_not_dropped {st : St} (hI : Inv st) (hq : quiescent st) (key :
     subscriber may still hold that peer's routes of the shard.) -/
 theorem snapshot_inv {st : St} (hI : Inv st) {s : Nat} (hs : s ∈ st.subscribers) (k : Nat) :
     (k ∈ st.done s → ∀ m key, key.shard = k →
-        view m key (st.queues s) = ribV m st key ∨ droppedShard st key) ∧
+        view m key (st.queues s) = ribV m st key ∨ droppedShard st key ∨ staleKey st key) ∧
     (k ∉ st.done s → ∀ m key, key.shard = k →
-        (touched m key (st.queues s) → view m key (st.queues s) = ribV m st key ∨ droppedShard st key) ∧
+        (touched m key (st.queues s) →
+          view m key (st.queues s) = ribV m st key ∨ droppedShard st key ∨ staleKey st key) ∧
         (¬ touched m key (st.queues s) → view m key (st.queues s) = none)) := by
   constructor
   · intro hk m key hkey
@@ -259,11 +311,13 @@ theorem snapshot_inv {st : St} (hI : Inv st) {s : Nat} (hs : s ∈ st.subscriber
 /-- `reconstruct_exact`: once all writers have finished, a live subscriber whose snapshot was
     completed holds exactly the pre-policy and the post-policy Adj-RIB-In of the table. -/
 theorem reconstruct {st : St} (hI : Inv st) (hq : quiescent st) {s : Nat} (hs : s ∈ st.subscribers)
-    (hc : s ∈ st.complete) (m : Bool) (key : Key) : view m key (st.queues s) = ribV m st key := by
+    (hc : s ∈ st.complete) (m : Bool) (key : Key) (hns : ¬ staleKey st key) :
+    view m key (st.queues s) = ribV m st key := by
   by_cases hk : key.shard < st.n
-  · rcases hI.viewI s hs m key (Or.inr (hI.comp s hc key.shard hk)) with h | h
+  · rcases hI.viewI s hs m key (Or.inr (hI.comp s hc key.shard hk)) with h | h | h
     · exact h
     · exact absurd h (quiescent_not_dropped hI hq key)
+    · exact absurd h hns
   · have hu : ¬ touched m key (st.queues s) := fun h => hk (hI.tshard s m key h)
     rw [view_untouched m key _ hu]
     have : st.rib key = none := by
@@ -276,10 +330,12 @@ theorem reconstruct {st : St} (hI : Inv st) (hq : quiescent st) {s : Nat} (hs : 
     not) every (peer, prefix, path-id) it ever received a route event for is held exactly as the
     table holds it. -/
 theorem last_current {st : St} (hI : Inv st) (hq : quiescent st) {s : Nat} (hs : s ∈ st.subscribers)
-    (m : Bool) (key : Key) (ht : touched m key (st.queues s)) : view m key (st.queues s) = ribV m st key := by
-  rcases hI.viewI s hs m key (Or.inl ht) with h | h
+    (m : Bool) (key : Key) (ht : touched m key (st.queues s)) (hns : ¬ staleKey st key) :
+    view m key (st.queues s) = ribV m st key := by
+  rcases hI.viewI s hs m key (Or.inl ht) with h | h | h
   · exact h
   · exact absurd h (quiescent_not_dropped hI hq key)
+  · exact absurd h hns
 
 /-! ## The scheduler -/
 
@@ -303,7 +359,7 @@ theorem step_frame {st st' : St} {i : Nat} {ins : Instr} {rest : List Instr}
     split at hs <;> (injection hs with hs; subst hs; exact ⟨rfl, by simp, fun j hj => updT_ne _ _ hj⟩)
   case unsubscribe =>
     split at hs <;> (injection hs with hs; subst hs; exact ⟨rfl, by simp, fun j hj => updT_ne _ _ hj⟩)
-  all_goals (injection hs with hs; subst hs; exact ⟨rfl, by simp, fun j hj => updT_ne _ _ hj⟩)
+  all_goals (injection hs with hs; subst hs; exact ⟨rfl, by simp [purgeStep], fun j hj => by simp [purgeStep, updT_ne _ _ hj]⟩)
 
 theorem sum_range_update (f g : Nat → Nat) (i : Nat) : ∀ n, i < n → (∀ j, j ≠ i → f j = g j) → f i = g i + 1 →
     ((List.range n).map f).sum = ((List.range n).map g).sum + 1 := by
@@ -629,19 +685,24 @@ theorem forward_ok : ∀ (evs : List Ev) (sent ups : List Nat), (∀ p ∈ sent,
 
 theorem checkKeys_map {cl : Key → String → String}
     {fc : List Item × List Item → Option Nat × Option Nat → Option String}
-    (f : Key → List Item × List Item) (g : Key → Option Nat × Option Nat) :
-    ∀ (u : List Key) (pos : Nat), (∀ key ∈ u, fc (f key) (g key) = none) →
-    Spec.checkKeys cl fc pos u (u.map f) (u.map g) = none := by
+    (f : Key → List Item × List Item) (g : Key → Option Nat × Option Nat) (sf : Key → Bool) :
+    ∀ (u : List Key) (pos : Nat), (∀ key ∈ u, sf key = true ∨ fc (f key) (g key) = none) →
+    Spec.checkKeys cl fc pos u (u.map f) (u.map g) (u.map sf) = none := by
   intro u
   induction u with
   | nil => intro _ _; rfl
   | cons k r ih =>
     intro pos h
-    simp only [List.map_cons, Spec.checkKeys, h k (by simp)]
+    have hk : (if sf k = true then none else fc (f k) (g k)) = none := by
+      rcases h k (by simp) with h1 | h1
+      · simp [h1]
+      · simp [h1]
+    simp only [List.map_cons, Spec.checkKeys, hk]
     exact ih _ (fun key hk => h key (by simp [hk]))
 
-theorem checkSubs_ok (c : Case) (u : List Key) (rib : List (Option Nat × Option Nat)) : ∀ (l : List SubObs) (i : Nat),
-    (∀ s ∈ l, Spec.checkSub c u rib s = none) → Spec.checkSubs c u rib i l = .ok := by
+theorem checkSubs_ok (c : Case) (u : List Key) (rib : List (Option Nat × Option Nat)) (sl : List Bool) :
+    ∀ (l : List SubObs) (i : Nat),
+    (∀ s ∈ l, Spec.checkSub c u rib sl s = none) → Spec.checkSubs c u rib sl i l = .ok := by
   intro l
   induction l with
   | nil => intro _ _; rfl
@@ -723,9 +784,14 @@ theorem check_run_ok (c : Case) (hc : caseOk c = true) (hnb : NoBmpRecs (run c))
       simp only [heos, Bool.not_true, Bool.and_false, Bool.false_eq_true, if_false]
       apply checkKeys_map
       intro key _
+      by_cases hst : staleKey (run c) key
+      · left
+        obtain ⟨e, he, hg⟩ := hst
+        simp [he, isStale, hg]
+      right
       unfold Spec.checkKey
-      have h1 := reconstruct hI hq hlive hcomp false key
-      have h2 := reconstruct hI hq hlive hcomp true key
+      have h1 := reconstruct hI hq hlive hcomp false key hst
+      have h2 := reconstruct hI hq hlive hcomp true key hst
       simp only [if_true]
       have e1 : Spec.held (histPre key ((run c).queues r.sid)) = preOf (run c) key := by
         unfold Spec.held; rw [held_histPre]; exact h1
@@ -736,13 +802,18 @@ theorem check_run_ok (c : Case) (hc : caseOk c = true) (hnb : NoBmpRecs (run c))
       simp only [Bool.false_and, Bool.false_eq_true, if_false]
       apply checkKeys_map
       intro key _
+      by_cases hst : staleKey (run c) key
+      · left
+        obtain ⟨e, he, hg⟩ := hst
+        simp [he, isStale, hg]
+      right
       unfold Spec.checkKey
       simp only [Bool.false_eq_true, if_false]
       have e1 : (if Spec.touched (histPre key ((run c).queues r.sid)) = true then
           Spec.cmp "nosnap-pre" (Spec.held (histPre key ((run c).queues r.sid))) (preOf (run c) key) else none) = none := by
         split
         · rename_i ht
-          have := last_current hI hq hlive false key (touched_histPre key _ ht)
+          have := last_current hI hq hlive false key (touched_histPre key _ ht) hst
           have e : Spec.held (histPre key ((run c).queues r.sid)) = preOf (run c) key := by
             unfold Spec.held; rw [held_histPre]; exact this
           rw [e, cmp_self]
@@ -751,7 +822,7 @@ theorem check_run_ok (c : Case) (hc : caseOk c = true) (hnb : NoBmpRecs (run c))
           Spec.cmp "nosnap-post" (Spec.held (histPost key ((run c).queues r.sid))) (postOf (run c) key) else none) = none := by
         split
         · rename_i ht
-          have := last_current hI hq hlive true key (touched_histPost key _ ht)
+          have := last_current hI hq hlive true key (touched_histPost key _ ht) hst
           have e : Spec.held (histPost key ((run c).queues r.sid)) = postOf (run c) key := by
             unfold Spec.held; rw [held_histPost]; exact this
           rw [e, cmp_self]
@@ -954,7 +1025,7 @@ def isConsumer : Op → Bool
 
 theorem compile_noBmp (n me : Nat) (op : Op) (h : isConsumer op = false) (w : Bool) (k : Nat) (hk : k ≠ 0) :
     Instr.register w k ∉ compile n me op := by
-  cases op <;> simp [compile, lockSec, bulk, perShard, isConsumer] at h ⊢
+  cases op <;> simp [compile, lockSec, bulk, purgeLoop, perShard, isConsumer] at h ⊢
   all_goals (intro _ hk'; exact hk hk')
 
 /-- no thread will ever create a consumer subscription, and none exists -/
